@@ -612,7 +612,13 @@ loop:
 		case <-stopDone:
 		case <-stopOverdue:
 			res.TimedOut, res.StopOverdue = true, true
-		case <-time.After(time.Duration(sp.TimeoutMs) * time.Millisecond / 2):
+		case <-time.After(func() time.Duration {
+			w := time.Duration(sp.TimeoutMs) * time.Millisecond / 2
+			if budgetStop && w < 45*time.Second { // a stop requested at the end of a short budget gets the usual allowance
+				w = 45 * time.Second
+			}
+			return w
+		}()):
 			res.TimedOut = true
 		}
 	}
